@@ -164,6 +164,16 @@ func (e EmailVerify) End(w http.ResponseWriter, r *http.Request) error {
 	wantToken := tokenValues.GetToken()
 
 	givenToken, _ := authboss.GetSession(r, authboss.Session2FAAuthToken)
+	if len(givenToken) == 0 {
+		// No token was issued for this session (or it was already used): an
+		// empty submitted value must not compare equal to "nothing".
+		ro := authboss.RedirectOptions{
+			Code:         http.StatusTemporaryRedirect,
+			Failure:      e.Localizef(r.Context(), authboss.TxtInvalid2FAVerificationToken),
+			RedirectPath: e.Authboss.Config.Paths.TwoFactorEmailAuthNotOK,
+		}
+		return e.Authboss.Core.Redirector.Redirect(w, r, ro)
+	}
 
 	if 1 != subtle.ConstantTimeCompare([]byte(wantToken), []byte(givenToken)) {
 		ro := authboss.RedirectOptions{
